@@ -71,9 +71,49 @@ def check_big(case):
     return ["big_graph", "weighted" if case.get("weighted") else "binary", "proper_S"]
 
 
+def check_layered(case):
+    """moral_graph / vstructures / skeleton / edge lists on complete layers with 128 and more common children (or parents):
+    numpy-level oracle in int64 (the bitset oracle is for small graphs)."""
+    import sempler.utils as utils
+    from props.c15 import _layered
+    A = _layered(case["layers"], case["a"], case.get("weighted", False))
+    keep = A.copy()
+    p = len(A)
+    D = (A != 0)
+    Di = D.astype(np.int64)
+    common = (Di @ Di.T) > 0                     # i and j have a common child
+    np.fill_diagonal(common, False)
+    sk = D | D.T
+    want_moral = sk | common
+    mg = np.asarray(must(lib(utils.moral_graph, A), "moral_graph(layers %s)" % case["layers"]))
+    if mg.shape != (p, p) or not np.array_equal(mg != 0, want_moral):
+        bad = np.argwhere((mg != 0) != want_moral)
+        raise Violation("moral_wrong", "moral_graph on complete layers %s (p=%d): %d entries differ from skeleton + married parents, "
+                        "e.g. %s" % (case["layers"], p, len(bad), bad[:3].tolist()))
+    vs = must(lib(utils.vstructures, A), "vstructures(layers)")
+    got = {(int(a), int(c), int(b)) for (a, c, b) in vs}
+    n_want = 0
+    for c in range(p):
+        pas = np.nonzero(D[:, c])[0]
+        k = len(pas)
+        if k >= 2:
+            n_want += int((k * (k - 1) // 2) - np.triu(sk[np.ix_(pas, pas)], 1).sum())
+    if len(got) != len(vs) or len(got) != n_want or any(not (i < j and D[i, c] and D[j, c] and not sk[i, j]) for (i, c, j) in list(got)[:5000]):
+        raise Violation("vstructures_wrong", "vstructures on complete layers %s: %d returned (%d distinct), %d unshielded colliders exist"
+                        % (case["layers"], len(vs), len(got), n_want))
+    skm = np.asarray(must(lib(utils.skeleton, A), "skeleton(layers)"))
+    if not np.array_equal(skm != 0, sk):
+        raise Violation("skeleton_wrong", "skeleton wrong on complete layers %s" % case["layers"])
+    if not np.array_equal(A, keep):
+        raise Violation("input_modified", "a decomposition function modified its argument")
+    return ["layered", "fan_ge_128", "proper_S", "weighted" if case.get("weighted") else "binary"]
+
+
 def check(case):
     if case["sub"] == "big":
         return check_big(case)
+    if case["sub"] == "layered":
+        return check_layered(case)
     import sempler.utils as utils
     A = _mat(case)
     keep = A.copy()
@@ -255,6 +295,8 @@ def plan(tier, seed):
     jobs = []
     for n, (p, miss) in enumerate([(447, 1), (448, 1), (500, 1), (500, 0), (600, 3), (300, 1)] + ([(1000, 2), (1415, 1)] if tier == "thorough" else [])):
         jobs.append({"sub": "big", "seed": seed, "p": p, "n_missing": miss, "index": n, "cost": 9})
+    for k, layers in enumerate([[10, 190], [3, 150, 2], [140, 2], [2, 129, 3]] + ([[12, 300], [260, 3]] if tier == "thorough" else [])):
+        jobs.append({"sub": "layered", "seed": seed, "layers": layers, "index": k, "cost": 12})
     for p in (1, 2, 3):
         jobs.append({"sub": "pdag_exh", "p": p, "shard": 0, "nshards": 1, "seed": seed, "cost": 1})
     for k in range(16):
@@ -279,6 +321,19 @@ def run(job):
         except Violation as v:
             acc.record(case, [], False)
             acc.violation(case, v)
+        acc.exhaustive = False
+        return acc
+    if job["sub"] == "layered":
+        import math
+        p = sum(job["layers"])
+        a = next(x for x in range(5 + job["seed"] % 7, 5 + job["seed"] % 7 + 4 * p) if math.gcd(x, p) == 1)
+        for weighted in (False, True):
+            case = {"sub": "layered", "layers": job["layers"], "a": a, "weighted": weighted}
+            try:
+                acc.record(case, check(case), True, by_construction=True)
+            except Violation as v:
+                acc.record(case, [], False)
+                acc.violation(case, v)
         acc.exhaustive = False
         return acc
     if job["sub"] == "pdag_exh":
